@@ -44,13 +44,15 @@ def _java(args, env=None, timeout=900, cwd=SPEC_DIR, heap="4g", extra_java=()):
     e.pop("JAVA_TOOL_OPTIONS", None)
     if env:
         e.update(env)
-    cmd = ["java", "-XX:+UseParallelGC", "-Xss64m", f"-Xmx{heap}", *extra_java, "-cp", JAR, "tlc2.TLC", *args]
+    # TLC leaves an empty tlc-<n> directory in java.io.tmpdir per run: keep it inside the run's own (removed) temp dir
+    jtmp = [f"-Djava.io.tmpdir={os.path.dirname(args[args.index('-metadir') + 1])}"] if "-metadir" in args else []
+    cmd = ["java", "-XX:+UseParallelGC", "-Xss64m", f"-Xmx{heap}", *jtmp, *extra_java, "-cp", JAR, "tlc2.TLC", *args]
     t0 = time.time()
     try:
         p = subprocess.run(cmd, cwd=cwd, env=e, capture_output=True, text=True, timeout=timeout)
     except subprocess.TimeoutExpired as ex:
         raise MachineryError(f"TLC timed out after {timeout}s: {' '.join(args)}") from ex
-    return p.returncode, p.stdout + p.stderr, time.time() - t0, " ".join(cmd[6:])
+    return p.returncode, p.stdout + p.stderr, time.time() - t0, " ".join(cmd[cmd.index("tlc2.TLC"):])
 
 
 _GEN = re.compile(r"(\d+) states generated, (\d+) distinct states found")
